@@ -28,6 +28,7 @@ import (
 	"go/types"
 	"os"
 	"path/filepath"
+	"regexp"
 	"sort"
 	"strings"
 )
@@ -51,7 +52,7 @@ var lsTargets = []lsTarget{
 	{"informer/disk", "Informer", []string{"rpcClient"}},
 	{"informer/numpin", "Informer", []string{"rpcClient"}},
 	{"pintracker/stateless", "Tracker", []string{"shutdown"}},
-	{"consensus/crdt", "Consensus", []string{"shutdown"}},
+	{"consensus/crdt", "Consensus", []string{"shutdown", "crdt"}},
 }
 
 func genLocksets(repo string) (string, error) {
@@ -181,12 +182,24 @@ type lsAccess struct {
 type lsNest struct{ held, acquired, where string }
 type lsLeak struct{ fn, lock, what, pos string }
 type lsWait struct {
-	fn    string
-	held  []string
-	group string
-	pos   string
+	fn     string
+	held   []string
+	group  string
+	pos    string
+	conds  []string // the conditions the wait sits under
+	direct bool     // performed here (not by a callee)
 }
-type lsMember struct{ group, unit, label, pos string }
+type lsMember struct {
+	group, unit, label, pos string
+	sure                    bool // channel groups: the close / send is reached whenever the unit runs
+}
+type lsLaunch struct { // a `go` statement
+	unit, by string   // the code unit it starts, the code unit that executes it
+	ctor     bool     // executed by a constructor-like function (no receiver): its early returns hand out no object
+	conds    []string // the conditions it sits under
+	exits    []string // the return statements of the launcher that lie before it
+	pos      string
+}
 type lsCover struct{ group, target, where string } // a unit the group covers may acquire the lock / wait for the group `target`
 type lsOut struct {
 	accs      []lsAccess
@@ -198,6 +211,7 @@ type lsOut struct {
 	waits     []lsWait
 	members   []lsMember
 	covers    []lsCover
+	launches  []lsLaunch
 }
 
 func lsAnalyze(module string, targets []lsTarget, srcs map[string]map[string]string) (*lsOut, error) {
@@ -466,6 +480,34 @@ func (a *lsAnalysis) coverEdges() {
 			a.out.covers = append(a.out.covers, lsCover{m.group, g, m.label + a.chain(m.unit, g, a.waitsD1)})
 		}
 	}
+}
+
+func lsRecvName(fd *ast.FuncDecl) string {
+	if fd.Recv != nil && len(fd.Recv.List) == 1 && len(fd.Recv.List[0].Names) == 1 {
+		return fd.Recv.List[0].Names[0].Name
+	}
+	return ""
+}
+
+// the return statements of a body (function literals excluded) that lie before p
+func lsReturnsBefore(fset *token.FileSet, body *ast.BlockStmt, p token.Pos) []string {
+	var r []string
+	if body == nil {
+		return r
+	}
+	ast.Inspect(body, func(n ast.Node) bool {
+		switch x := n.(type) {
+		case *ast.FuncLit:
+			return false
+		case *ast.ReturnStmt:
+			if x.Pos() < p {
+				q := fset.Position(x.Pos())
+				r = append(r, fmt.Sprintf("%s:%d", q.Filename, q.Line))
+			}
+		}
+		return true
+	})
+	return r
 }
 
 func lsRecvType(fd *ast.FuncDecl) string {
@@ -751,11 +793,14 @@ type lsWalker struct {
 	alias   map[string]*lsLoc
 	held    []lsHeld
 	loops   []lsFrame
-	stack   []string // inlined callees
-	inLit   int      // > 0 inside a function literal
-	unit    string   // the thread-level code unit being walked: the function, or a `go func` literal in it
-	noWait  int      // > 0 inside the communication clause of a multi-way select: a receive there is not a wait
-	inDefer int      // > 0 inside a deferred function literal: the locks held when it runs are not known
+	stack   []string       // inlined callees
+	inLit   int            // > 0 inside a function literal
+	unit    string         // the thread-level code unit being walked: the function, or a `go func` literal in it
+	noWait  int            // > 0 inside the communication clause of a multi-way select: a receive there is not a wait
+	inDefer int            // > 0 inside a deferred function literal: the locks held when it runs are not known
+	conds   []string       // the conditions of the enclosing if statements (receiver written as _), a marker for loops and cases
+	body    *ast.BlockStmt // the body of the code unit (for the return statements that precede a go / close statement)
+	recv    string         // name of the receiver of the function being walked
 }
 
 func (a *lsAnalysis) walkFunc(p *lsPkg, key string, fd *ast.FuncDecl) {
@@ -764,6 +809,8 @@ func (a *lsAnalysis) walkFunc(p *lsPkg, key string, fd *ast.FuncDecl) {
 	a.labels[top.key] = top.label
 	w := &lsWalker{a: a, pkg: p, top: top, label: "", env: map[string]*lsType{}, alias: map[string]*lsLoc{}, unit: top.key}
 	w.bindParams(fd, nil, nil)
+	w.body = fd.Body
+	w.recv = lsRecvName(fd)
 	if fd.Type.Results != nil && len(fd.Type.Results.List) > 0 {
 		a.out.accessors = append(a.out.accessors, p.name+"."+key)
 	}
@@ -1403,13 +1450,39 @@ func (w *lsWalker) wait(group string, p token.Pos) {
 		w.a.waitsD[w.unit] = map[string]bool{}
 	}
 	w.a.waitsD[w.unit][group] = true
-	w.a.out.waits = append(w.a.out.waits, lsWait{w.who(), w.heldNames(), group, ps})
+	w.a.out.waits = append(w.a.out.waits, lsWait{w.who(), w.heldNames(), group, ps, append([]string{}, w.conds...), true})
 }
 
 // this code unit is one of the threads the group covers
 func (w *lsWalker) member(group string, p token.Pos) {
 	ps, _ := w.pos(p)
-	w.a.out.members = append(w.a.out.members, lsMember{group, w.unit, w.a.labels[w.unit], ps})
+	// reached whenever the unit runs: under no condition, not in an inlined callee or a literal, and no return statement
+	// before it (a `defer close(ch)` that is the first thing the unit does qualifies)
+	sure := len(w.conds) == 0 && len(w.stack) == 0 && w.inLit == 0 && len(lsReturnsBefore(w.pkg.fset, w.body, p)) == 0
+	w.a.out.members = append(w.a.out.members, lsMember{group, w.unit, w.a.labels[w.unit], ps, sure})
+}
+
+var lsWordRe = map[string]*regexp.Regexp{}
+
+func (w *lsWalker) condText(e ast.Expr) string {
+	t := types.ExprString(e)
+	if w.recv != "" {
+		// the same condition written in two methods must compare equal: the receiver is spelled _
+		re := lsWordRe[w.recv]
+		if re == nil {
+			re = regexp.MustCompile(`\b` + regexp.QuoteMeta(w.recv) + `\b`)
+			lsWordRe[w.recv] = re
+		}
+		t = re.ReplaceAllString(t, "_")
+	}
+	return t
+}
+
+// a `go` statement starts `unit`
+func (w *lsWalker) launch(unit string, p token.Pos) {
+	ps, _ := w.pos(p)
+	w.a.out.launches = append(w.a.out.launches, lsLaunch{unit: unit, by: w.a.labels[w.unit], ctor: w.unit == w.top.key && w.recv == "" && len(w.stack) == 0,
+		conds: append([]string{}, w.conds...), exits: lsReturnsBefore(w.pkg.fset, w.body, p), pos: ps})
 }
 
 // `go func(...) {...}(...)`: a thread of its own. It starts with nothing held and may lock and unlock like a function;
@@ -1424,7 +1497,8 @@ func (w *lsWalker) goLit(f *ast.FuncLit, c *ast.CallExpr) {
 	w.top.units = append(w.top.units, unit)
 	w.a.labels[unit] = "goroutine " + w.top.label + w.label + " " + ps
 	cw := &lsWalker{a: w.a, pkg: w.pkg, top: w.top, label: w.label, env: map[string]*lsType{}, alias: map[string]*lsLoc{},
-		stack: w.stack, unit: unit}
+		stack: w.stack, unit: unit, body: f.Body, recv: w.recv}
+	w.launch(w.a.labels[unit], f.Pos())
 	for k, v := range w.env {
 		cw.env[k] = v
 	}
@@ -1469,7 +1543,7 @@ func (w *lsWalker) noteCall(c *ast.CallExpr) {
 				w.giveUp("call that may wait inside a deferred function literal (the locks held when it runs are not followed)", c.Pos())
 			}
 			for _, g := range gs {
-				w.a.out.waits = append(w.a.out.waits, lsWait{w.who() + " -> " + k[strings.Index(k, "|")+1:] + w.a.chain(k, g, w.a.waitsD1), w.heldNames(), g, ps})
+				w.a.out.waits = append(w.a.out.waits, lsWait{w.who() + " -> " + k[strings.Index(k, "|")+1:] + w.a.chain(k, g, w.a.waitsD1), w.heldNames(), g, ps, nil, false})
 			}
 		}
 		if w.a.pass == 2 && len(w.held) > 0 {
@@ -1571,11 +1645,22 @@ func (w *lsWalker) stmt(s ast.Stmt) {
 		if w.syncCall(st.Call) {
 			return
 		}
+		if id, ok := st.Call.Fun.(*ast.Ident); ok && id.Name == "close" && w.env["close"] == nil && len(st.Call.Args) == 1 {
+			if g, ok := w.chanGroup(st.Call.Args[0]); ok {
+				w.member(g, st.Pos()) // closed when the unit returns
+				return
+			}
+		}
 		w.deferredOrGo(st.Call)
 	case *ast.GoStmt:
 		if fl, ok := st.Call.Fun.(*ast.FuncLit); ok {
 			w.goLit(fl, st.Call)
 		} else {
+			if k, _, _ := w.callee(st.Call); k != "" {
+				if p2 := w.a.pkgs[k[:strings.Index(k, "|")]]; p2 != nil {
+					w.launch(p2.name+"."+k[strings.Index(k, "|")+1:], st.Pos())
+				}
+			}
 			w.deferredOrGo(st.Call) // go f(...): f runs as a thread of its own; nothing of it is charged to this function
 		}
 	case *ast.AssignStmt:
@@ -1642,12 +1727,18 @@ func (w *lsWalker) stmt(s ast.Stmt) {
 		w.stmt(st.Init)
 		w.rd(st.Cond)
 		entry := lsCopyHeld(w.held)
+		ct := w.condText(st.Cond)
+		savedConds := w.conds
+		w.conds = append(append([]string{}, savedConds...), ct)
 		w.block(st.Body)
+		w.conds = savedConds
 		thenH, thenT := w.held, lsTerminates(st.Body)
 		w.held = lsCopyHeld(entry)
 		elseT := false
 		if st.Else != nil {
+			w.conds = append(append([]string{}, savedConds...), "!("+ct+")")
 			w.stmt(st.Else)
+			w.conds = savedConds
 			elseT = lsTerminates(st.Else)
 		}
 		switch {
@@ -1702,7 +1793,11 @@ func (w *lsWalker) stmt(s ast.Stmt) {
 func (w *lsWalker) loop(body func(), p token.Pos) {
 	entry := lsCopyHeld(w.held)
 	w.loops = append(w.loops, lsFrame{entry, true})
+	ps, _ := w.pos(p)
+	savedConds := w.conds
+	w.conds = append(append([]string{}, savedConds...), "loop@"+ps) // the body may run no time at all
 	body()
+	w.conds = savedConds
 	w.loops = w.loops[:len(w.loops)-1]
 	if !lsSameHeld(w.held, entry) {
 		w.giveUp("lockset at the end of a loop body differs from the one at entry", p)
@@ -1742,10 +1837,14 @@ func (w *lsWalker) clauses(b *ast.BlockStmt, isSelect bool) {
 			body = cc.Body
 		}
 		term := false
+		cps, _ := w.pos(c.Pos())
+		savedConds := w.conds
+		w.conds = append(append([]string{}, savedConds...), "case@"+cps)
 		for _, s := range body {
 			w.stmt(s)
 			term = lsTerminates(s)
 		}
+		w.conds = savedConds
 		if bs, ok := lastStmt(body).(*ast.BranchStmt); ok && bs.Tok == token.BREAK {
 			term = false
 		}
@@ -2219,7 +2318,7 @@ func (w *lsWalker) inline(key string, fd *ast.FuncDecl, c *ast.CallExpr) {
 	}
 	name := key[strings.Index(key, "|")+1:]
 	cw := &lsWalker{a: w.a, pkg: w.pkg, top: w.top, label: w.label + ">" + name, env: map[string]*lsType{}, alias: map[string]*lsLoc{},
-		held: lsCopyHeld(w.held), stack: append(append([]string{}, w.stack...), sig), inLit: w.inLit, unit: w.unit, noWait: w.noWait, inDefer: w.inDefer}
+		held: lsCopyHeld(w.held), stack: append(append([]string{}, w.stack...), sig), inLit: w.inLit, unit: w.unit, noWait: w.noWait, inDefer: w.inDefer, conds: w.conds, body: fd.Body, recv: lsRecvName(fd)}
 	cw.bindParams(fd, c.Args, w)
 	n := len(cw.held)
 	cw.block(fd.Body)
@@ -2373,6 +2472,31 @@ func (o *lsOut) coq() string {
 		}
 	}
 	b.WriteString("Definition members : list (string * string * string) := [\n  " + strings.Join(ms, ";\n  ") + "].\n\n")
+	b.WriteString("(* plain receives from channel fields: (function, group, locks held, conditions it sits under, position) *)\n")
+	var cws []string
+	awaitedCh := map[string]bool{}
+	for _, x := range o.waits {
+		if x.direct && strings.HasPrefix(x.group, "ch:") {
+			awaitedCh[x.group] = true
+			cws = append(cws, fmt.Sprintf("(%s, %s, %s, %s, %s)", coqStr(x.fn), coqStr(x.group), coqStrList(x.held), coqStrList(x.conds), coqStr(x.pos)))
+		}
+	}
+	b.WriteString("Definition chan_waits : list (string * string * list string * list string * string) := [\n  " + strings.Join(cws, ";\n  ") + "].\n\n")
+	b.WriteString("(* who closes (or sends on) an awaited channel: (group, code unit, is the close reached whenever the unit runs, position) *)\n")
+	var cls []string
+	for _, m := range o.members {
+		if awaitedCh[m.group] {
+			cls = append(cls, fmt.Sprintf("(%s, %s, %v, %s)", coqStr(m.group), coqStr(m.label), m.sure, coqStr(m.pos)))
+		}
+	}
+	b.WriteString("Definition closers : list (string * string * bool * string) := [\n  " + strings.Join(cls, ";\n  ") + "].\n\n")
+	b.WriteString("(* go statements: (code unit started, code unit that executes the go statement, is that a constructor-like function,\n")
+	b.WriteString("   conditions the go statement sits under, return statements of the launcher that precede it, position) *)\n")
+	var lns []string
+	for _, l := range o.launches {
+		lns = append(lns, fmt.Sprintf("(%s, %s, %v, %s, %s, %s)", coqStr(l.unit), coqStr(l.by), l.ctor, coqStrList(l.conds), coqStrList(l.exits), coqStr(l.pos)))
+	}
+	b.WriteString("Definition launches : list (string * string * bool * list string * list string * string) := [\n  " + strings.Join(lns, ";\n  ") + "].\n\n")
 	b.WriteString("(* (group, lock a covered unit may acquire | group a covered unit may wait for, the unit and the call chain) *)\n")
 	var cs []string
 	for _, c := range o.covers {
